@@ -84,6 +84,44 @@ def quirkNested : Tmpl :=
             (.text ['}']))))))
         (.call (.call 2 []) [] (.text ['T'])))
 
+/-- defs of a `<%call>` under a control line and in a nested `<%call>` (all of them are written into the outer `ccall`):
+    `<%def name="d1()">[${caller.d5('a')}|${caller.d7()}|${caller.body()}]</%def>` `<%def name="d2()">(${caller.body()})</%def>`
+    `<%call expr="d1()">` `% if 'c':` `<%def name="d5(v5)" filter="flt2">n${v5}</%def>X` `% endif`
+    `<%call expr="d2()"><%def name="d7()">s</%def>I${d7()}</%call>B${d5('b')}</%call>`
+    (real mako renders `[2(na)|s|X(Is)B2(nb)]`) -/
+def sampleDeep : Tmpl :=
+  .seq (.def_ 1 [] noFlags (.seq (.text ['[']) (.seq (.expr (.callerCall 5 [.lit ['a']]) []) (.seq (.text ['|'])
+          (.seq (.expr (.callerCall 7 []) []) (.seq (.text ['|']) (.seq (.expr (.callerCall 0 []) []) (.text [']']))))))))
+  (.seq (.def_ 2 [] noFlags (.seq (.text ['(']) (.seq (.expr (.callerCall 0 []) []) (.text [')']))))
+    (.call (.call 1 []) []
+      (.seq (.ite (.lit ['c']) (.seq (.def_ 5 [5] flFilt2 (.seq (.text ['n']) (.expr (.var 5) []))) (.text ['X'])) .nil)
+      (.seq (.call (.call 2 []) [] (.seq (.def_ 7 [] noFlags (.text ['s'])) (.seq (.text ['I']) (.expr (.call 7 []) []))))
+      (.seq (.text ['B']) (.expr (.call 5 [.lit ['b']]) []))))))
+
+/-- blocks and an include (block names start at `blockBase`):
+    `<%def name="d1(v1)">[${v1}]</%def>a<%block name="b1" filter="flt2">x${d1('q')}</%block>`
+    `% for v3 in ['i', 'j']:` `<%block filter="flt2">` `% for v4 in ['u', v3]:` `${loop.index}${v4}` `% endfor` `</%block>`
+    `% endfor` `<%include file="t1"/>` `<%def name="d2()">(<%block filter="flt2">${probe(context)}</%block>)</%def>${d2()}`
+    – a named block of the template body (a module-level callable, rendered in place), an anonymous block inside a loop
+    with a loop of its own that reads a variable of the enclosing scope, an anonymous block inside a def -/
+def sampleBlocks : Tmpl :=
+  .seq (.def_ 1 [1] noFlags (.seq (.text ['[']) (.seq (.expr (.var 1) []) (.text [']']))))
+  (.seq (.text ['a'])
+  (.seq (.block 2000001 false flFilt2 (.seq (.text ['x']) (.expr (.call 1 [.lit ['q']]) [])))
+  (.seq (.for_ 3 [.lit ['i'], .lit ['j']]
+          (.block 2000002 true flFilt2
+            (.for_ 4 [.lit ['u'], .var 3] (.seq (.expr .loopIndex []) (.expr (.var 4) [])))))
+  (.seq (.include_ 1)
+  (.seq (.def_ 2 [] noFlags (.seq (.text ['(']) (.seq (.block 2000003 true flFilt2 (.expr .probe [])) (.text [')']))))
+        (.expr (.call 2 []) []))))))
+
+/-- the included template: `I<%block name="b1">k</%block><%block buffered="True">z</%block>J` – its named block is a
+    callable of *its* module (same name as the includer's); the content of the buffered block is returned to a
+    call site that drops it (`visitBlockTag` writes a bare call) -/
+def sampleIncluded : Tmpl :=
+  .seq (.text ['I']) (.seq (.block 2000001 false noFlags (.text ['k']))
+    (.seq (.block 2000004 true { buffered := true, filters := [], cached := false, deco := false } (.text ['z'])) (.text ['J'])))
+
 /-- `withBufferFilters bf t`: the template as the generator sees it when the `Template` was constructed with
     `buffer_filters=bf` – `write_def_finish` applies them after the def's own `filter=` functions, for buffered
     defs that are not cached -/
